@@ -791,7 +791,7 @@ C10_TYPES = ["u8", "i32", "f32", "bool", "&'static str", "Option<u8>", "W<u8>", 
 C10_SPECS = ["{:?}", "{:#?}", "{:6?}", "{:<6?}", "{:+?}", "{:.1?}", "{:x?}", "{:#06x?}", "{:^9?}", "{:>08?}", "{:#X?}", "{:+.2?}", "{:-^12.3?}", "{:#10?}"]
 
 
-C10_HOSTILE_NAMES = ["_f", "f", "__f", "fmt", "_fmt", "state", "_0", "_self", "other", "_d", "d", "_s", "__self", "_b", "b"]
+C10_HOSTILE_NAMES = ["_f", "f", "__f", "fmt", "_fmt", "state", "_0", "_self", "other", "_d", "d", "_s", "__self", "_b", "b", "r#type", "r#match", "r#fn", "r#loop", "r#value"]
 
 
 def c10_prog(name, rng, entry, first_name=None):
